@@ -450,7 +450,9 @@ class TileCreator(object):
                 if source.cacheable:
                     self.cache.store_tile(tile)
             else:
-                self.cache.load_tile(tile)
+                # stored by another request while we waited for the lock:
+                # load it with the metadata of what is stored now
+                self.cache.load_tile(tile, with_metadata=True)
         return [tile]
 
     def _query_sources(self, query):
@@ -523,7 +525,7 @@ class TileCreator(object):
                 return splitted_tiles
             # else
         tiles = [Tile(coord) for coord in meta_tile.tiles]
-        self.cache.load_tiles(tiles, dimensions=self.dimensions)
+        self.cache.load_tiles(tiles, with_metadata=True, dimensions=self.dimensions)
         return tiles
 
     def _create_bulk_meta_tile(self, meta_tile):
@@ -577,7 +579,7 @@ class TileCreator(object):
 
             # else
         tiles = [Tile(coord) for coord in meta_tile.tiles]
-        self.cache.load_tiles(tiles, dimensions=self.dimensions)
+        self.cache.load_tiles(tiles, with_metadata=True, dimensions=self.dimensions)
         return tiles
 
 
